@@ -359,6 +359,8 @@ func randCoding(rng *rand.Rand, n int, full bool) string {
 		alpha = "ACGTacgtNnRY-"
 	case 1: // RNA spelling mixed in: a triplet with U is not a codon of the table
 		alpha = "ACGTacgtUuACGT"
+	case 2: // ... and a transcript proper: U throughout, no T anywhere
+		alpha = "ACGUacguACG"
 	}
 	for b.Len() < n {
 		b.WriteByte(alpha[rng.Intn(len(alpha))])
